@@ -812,8 +812,9 @@ template <class R1, class U1, class R2, class U2>
 struct MinMaxInst {
     using Q1 = au::Quantity<U1, R1>; using Q2 = au::Quantity<U2, R2>;
     using CU = au::CommonUnitT<U1, U2>; using CR = std::common_type_t<R1, R2>;
-    static_assert(std::is_same<decltype(call_max(Q1{}, Q2{})), au::Quantity<CU, CR>>::value, "max unit");
-    static_assert(std::is_same<decltype(call_min(Q1{}, Q2{})), au::Quantity<CU, CR>>::value, "min unit");
+    // static result type, judged by the check (printed, so that the values are still judged when it is wrong)
+    static constexpr bool type_ok = std::is_same<decltype(call_max(Q1{}, Q2{})), au::Quantity<CU, CR>>::value &&
+                                    std::is_same<decltype(call_min(Q1{}, Q2{})), au::Quantity<CU, CR>>::value;
     static void pt(int argc, char** argv, std::string& o) {
         for (int i = 0; i + 1 < argc; i += 2) {
             token(o, [&] {
@@ -823,13 +824,13 @@ struct MinMaxInst {
             });
         }
     }
-    static void sweep(int, char**, std::string& o) { RatioInfo<U1, U2>::put_info(o); }
+    static void sweep(int, char**, std::string& o) { RatioInfo<U1, U2>::put_info(o); o += type_ok ? " type=1" : " type=0"; }
 };
 template <class RV, class UV, class RL, class UL, class RH, class UH>
 struct ClampInst {
     using QV = au::Quantity<UV, RV>; using QL = au::Quantity<UL, RL>; using QH = au::Quantity<UH, RH>;
     using CU = au::CommonUnitT<UV, UL, UH>; using CR = std::common_type_t<RV, RL, RH>;
-    static_assert(std::is_same<decltype(call_clamp(QV{}, QL{}, QH{})), au::Quantity<CU, CR>>::value, "clamp unit");
+    static constexpr bool type_ok = std::is_same<decltype(call_clamp(QV{}, QL{}, QH{})), au::Quantity<CU, CR>>::value;
     static void pt(int argc, char** argv, std::string& o) {
         for (int i = 0; i + 2 < argc; i += 3) {
             token(o, [&] {
@@ -847,7 +848,7 @@ struct ClampInst {
                  (unsigned long long)au::get_value<std::uint64_t>(au::numerator(M1{})), (unsigned long long)au::get_value<std::uint64_t>(au::denominator(M1{})),
                  (unsigned long long)au::get_value<std::uint64_t>(au::numerator(M2{})), (unsigned long long)au::get_value<std::uint64_t>(au::denominator(M2{})),
                  (unsigned long long)au::get_value<std::uint64_t>(au::numerator(M3{})), (unsigned long long)au::get_value<std::uint64_t>(au::denominator(M3{})));
-        o += b;
+        o += b; o += type_ok ? " type=1" : " type=0";
     }
 };
 
@@ -856,8 +857,9 @@ template <class R1, class U1, class R2, class U2>
 struct PointMinMaxInst {
     using P1 = au::QuantityPoint<U1, R1>; using P2 = au::QuantityPoint<U2, R2>;
     using CU = au::CommonPointUnitT<U1, U2>; using CR = std::common_type_t<R1, R2>;
-    static_assert(std::is_same<std::decay_t<decltype(call_max(std::declval<P1>(), std::declval<P2>()))>, au::QuantityPoint<CU, CR>>::value, "max unit (point)");
-    static_assert(std::is_same<std::decay_t<decltype(call_min(std::declval<P1>(), std::declval<P2>()))>, au::QuantityPoint<CU, CR>>::value, "min unit (point)");
+    static constexpr bool type_ok =
+        std::is_same<std::decay_t<decltype(call_max(std::declval<P1>(), std::declval<P2>()))>, au::QuantityPoint<CU, CR>>::value &&
+        std::is_same<std::decay_t<decltype(call_min(std::declval<P1>(), std::declval<P2>()))>, au::QuantityPoint<CU, CR>>::value;
     static void pt(int argc, char** argv, std::string& o) {
         for (int i = 0; i + 1 < argc; i += 2) {
             token(o, [&] {
@@ -867,13 +869,14 @@ struct PointMinMaxInst {
             });
         }
     }
-    static void sweep(int, char**, std::string& o) { RatioInfo<U1, U2>::put_info_for(CU{}, o); }
+    static void sweep(int, char**, std::string& o) { RatioInfo<U1, U2>::put_info_for(CU{}, o); o += type_ok ? " type=1" : " type=0"; }
 };
 template <class RV, class UV, class RL, class UL, class RH, class UH>
 struct PointClampInst {
     using PV = au::QuantityPoint<UV, RV>; using PL = au::QuantityPoint<UL, RL>; using PH = au::QuantityPoint<UH, RH>;
     using CU = au::CommonPointUnitT<UV, UL, UH>; using CR = std::common_type_t<RV, RL, RH>;
-    static_assert(std::is_same<std::decay_t<decltype(call_clamp(std::declval<PV>(), std::declval<PL>(), std::declval<PH>()))>, au::QuantityPoint<CU, CR>>::value, "clamp unit (point)");
+    static constexpr bool type_ok =
+        std::is_same<std::decay_t<decltype(call_clamp(std::declval<PV>(), std::declval<PL>(), std::declval<PH>()))>, au::QuantityPoint<CU, CR>>::value;
     static void pt(int argc, char** argv, std::string& o) {
         for (int i = 0; i + 2 < argc; i += 3) {
             token(o, [&] {
@@ -891,7 +894,7 @@ struct PointClampInst {
                  (unsigned long long)au::get_value<std::uint64_t>(au::numerator(M1{})), (unsigned long long)au::get_value<std::uint64_t>(au::denominator(M1{})),
                  (unsigned long long)au::get_value<std::uint64_t>(au::numerator(M2{})), (unsigned long long)au::get_value<std::uint64_t>(au::denominator(M2{})),
                  (unsigned long long)au::get_value<std::uint64_t>(au::numerator(M3{})), (unsigned long long)au::get_value<std::uint64_t>(au::denominator(M3{})));
-        o += b;
+        o += b; o += type_ok ? " type=1" : " type=0";
     }
 };
 
